@@ -48,12 +48,18 @@ class C03(Check):
 
     def strata(self, tier):
         s = [('S-main', 6), ('S-heun', 3), ('S-adaptive', 3), ('S-fault', 1), ('S-nonmult', 1), ('S-onerow', 1),
-             ('S-torch', 1)]
+             ('S-torch', 1), ('S-jax', 1)]
+        if tier == 'thorough':
+            s.append(('S-fortran', 1))      # f2py build per run (~6-10 s): thorough tier only
         return s
 
     def prepare_parent(self):
         try:
             import torch  # noqa: imported once in the parent; children are forked from it (no torch op runs here)
+        except Exception:
+            pass
+        try:
+            import jax  # noqa: same for jax (the XLA client is created lazily, in the child)
         except Exception:
             pass
 
@@ -68,7 +74,19 @@ class C03(Check):
         K = rng.randint(2, kmax)
         solver = 'euler'
         kw = {}
-        if stratum == 'S-torch':
+        if stratum == 'S-fortran':
+            solver = rng.choice(['euler', 'heun', 'scipy'])
+            if solver == 'scipy':
+                rtol = rng.choice([1e-6, 1e-8])
+                kw = {'method': rng.choice(['RK45', 'DOP853']), 'rtol': rtol, 'atol': rtol * 1e-2}
+        elif stratum == 'S-jax':
+            solver = rng.choice(['euler', 'heun', 'scipy', 'diffrax'])   # lax.scan loops, scipy wrapper, diffrax
+            if solver in ('scipy', 'diffrax'):
+                rtol = rng.choice([1e-6, 1e-8])
+                kw = {'rtol': rtol, 'atol': rtol * 1e-2}
+                if solver == 'scipy':
+                    kw['method'] = rng.choice(['RK45', 'DOP853'])
+        elif stratum == 'S-torch':
             solver = rng.choice(['euler', 'scipy'])      # the torch backend's own solver implementations
             if solver == 'scipy':
                 rtol = rng.choice([1e-6, 1e-8, 1e-10])
@@ -97,17 +115,22 @@ class C03(Check):
         if cut_kind == 'beyond' and rng.random() < 0.7:
             cutoff = 0.0
         cfg = {'dt': dt, 'm': m, 'K': K, 'T': T, 'dts': dts, 'cutoff': cutoff, 'solver': solver, 'solver_kw': kw,
-               'backend': 'torch' if stratum == 'S-torch' else 'default', 'vectorize': rng.random() < 0.5,
+               'backend': {'S-torch': 'torch', 'S-jax': 'jax', 'S-fortran': 'fortran'}.get(stratum, 'default'),
+               'vectorize': rng.random() < 0.5 and stratum != 'S-fortran',
                'precision': 'float64' if rng.random() < 0.8 else 'float32',
                'sampling_arg': True if m > 1 or rng.random() < 0.7 else False,
                'outputs': rng.choice(['explicit', 'wild']),
                'input': gen_input(rng, spec, steps) if rng.random() < 0.4 else None,
                'fault_at': None}
-        if solver == 'scipy':
+        if stratum in ('S-jax', 'S-fortran'):
+            cfg['outputs'] = 'explicit'
+        if solver in ('scipy', 'diffrax'):
             cfg['precision'] = 'float64'
+            if stratum == 'S-jax':
+                cfg['input'] = None
             if cfg['input']:
                 cfg['input']['kind'] = 'smooth'
-            if stratum == 'S-torch':
+            if stratum in ('S-torch', 'S-fortran'):
                 cfg['input'] = None     # the torch interp helper (nearest neighbour, reconnaissance R6) is C08's subject
         if stratum == 'S-fault':
             per = 2 if solver == 'heun' else 1
@@ -152,6 +175,8 @@ class C03(Check):
                 for v in models.LIB[o['lib']]['state']:
                     outputs[f"w_{o['name']}_{v}"] = f"{depth}/{o['name']}/{v}"
         c = models.build(spec)
+        if cfg['backend'] in ('jax', 'fortran'):
+            return self._exec_jax(trace, c, net, names, outputs)
         rec = Recorder(fault_at=cfg['fault_at'])
         kw = dict(cfg['solver_kw'])
         if cfg['sampling_arg']:
@@ -396,6 +421,120 @@ class C03(Check):
                           f'(|diff|={abs(got[b]-refv[b]):.3e} > bound {bound[b]:.3e}; method={cfg["solver_kw"].get("method")}, rtol={rtol})')
                         return res
         res['nontrivial'] = len(E) >= 4
+        return res
+
+    # ------------------------------------------------------------------------------------------------
+    def _exec_jax(self, trace, c, net, names, outputs):
+        """jax: lax.scan traces the RHS once, so evaluations cannot be recorded; the returned rows are compared with the
+        reference Euler/Heun iterates (same dt, exact laws up to 1e-9) or with the DOP853 reference (adaptive)"""
+        import numpy as np
+        spec, cfg = trace['spec'], trace['cfg']
+        res = {'violations': [], 'probes': {cfg['backend']: 1}, 'faults': {}, 'digest': digest([spec, cfg]), 'nontrivial': False,
+               'sim_time': cfg['T'], 'stats': {}}
+
+        def V(law, cls, key, detail):
+            res['violations'].append({'law': law, 'cls': cls, 'key': key, 'detail': detail})
+        kw = dict(cfg['solver_kw'])
+        if cfg['sampling_arg']:
+            kw['sampling_step_size'] = cfg['dts']
+        inputs, u = None, None
+        if cfg['input']:
+            u = input_array(cfg['input'])
+            inputs = {cfg['input']['target']: u}
+        try:
+            R = c.run(cfg['T'], cfg['dt'], inputs=inputs, outputs=outputs, cutoff=cfg['cutoff'], solver=cfg['solver'],
+                      backend=cfg['backend'], vectorize=cfg['vectorize'], float_precision=cfg['precision'], verbose=False,
+                      **kw)
+        except Exception as e:
+            res['discard'] = f'model/solver refused on {cfg["backend"]}: {type(e).__name__}: {str(e)[:60]}'
+            return res
+        vals = np.asarray(R.values, dtype=float)
+        if not np.all(np.isfinite(vals)):
+            res['discard'] = 'non-finite trajectory'
+            return res
+        dt, m, T, dts = cfg['dt'], cfg['m'], cfg['T'], cfg['dts']
+        steps = int(round(T / dt))
+        rows_all = int(round(T / dts))
+        idx = np.asarray(R.index.values, dtype=float)
+        js = [int(round(t / dts)) for t in idx]
+        scale = max(T, dts)
+        if any(abs(t - j * dts) > 1e-9 * scale for t, j in zip(idx, js)):
+            V('L-time', 'silent', 'index', f'index {idx[:4].tolist()}.. is not a multiple of the sampling step {dts}')
+            return res
+        cutoff = cfg['cutoff']
+        must = [j for j in range(rows_all) if j * dts >= cutoff + 1e-9 * scale]
+        may = [j for j in range(rows_all) if abs(j * dts - cutoff) <= 1e-9 * scale]
+        if not (set(must) <= set(js) <= set(must) | set(may)) or js != sorted(set(js)):
+            V('L-cutoff' if cutoff > 0 else 'L-rows', 'silent', 'row-set',
+              f'returned rows n={len(js)} {js[:4]}..; expected n={len(must)} of round(T/dts)={rows_all}, cutoff={cutoff}')
+            return res
+        col = {k: np.asarray(R[k].values, dtype=float) for k in outputs}
+        name_of = {k: outputs[k] for k in outputs}
+        if cfg['solver'] in ('euler', 'heun'):
+            def extra_at(k, traj):
+                if not cfg['input']:
+                    return None
+                return {(cfg['input']['node'], cfg['input']['op']): float(u[min(k, len(u) - 1)])}
+            trajs = [(models.ref_euler if cfg['solver'] == 'euler' else models.ref_heun)(net, dt, steps, extra_at)]
+            if cfg['solver'] == 'heun' and cfg['input']:
+                # which input sample the corrector stage reads (k or k+1) is pinned by C08, not by C03: both conventions
+                # are accepted here, exactly like L-clock does for the recorded loops
+                y = net.y0()
+                alt = [dict(y)]
+                for k in range(steps):
+                    r1 = net.rhs(y, extra_at(k, None))
+                    yp = {n: y[n] + dt * r1[n] for n in y}
+                    r2 = net.rhs(yp, extra_at(k + 1, None))
+                    y = {n: y[n] + dt / 2 * (r1[n] + r2[n]) for n in y}
+                    alt.append(dict(y))
+                trajs.append(alt)
+            tol = 1e-9 if cfg['precision'] == 'float64' else 5e-4
+            fails = []
+            for traj in trajs:
+                bad = None
+                for k, n in name_of.items():
+                    for row, j in enumerate(js):
+                        w = traj[j * m][n]
+                        if abs(col[k][row] - w) > tol * max(1.0, abs(w)):
+                            bad = (n, j, row, w, col[k][row])
+                            break
+                    if bad:
+                        break
+                if bad is None:
+                    fails = []
+                    break
+                fails.append(bad)
+            if fails:
+                n, j, row, w, g = fails[0]
+                V('L-step', 'silent', cfg['backend'] + '-' + cfg['solver'] + ('-input' if cfg['input'] else ''),
+                  f'{n} row {j} (t={idx[row]}): {cfg["backend"]} {cfg["solver"]} returned {g!r}, reference iterate '
+                  f'y[{j*m}] = {w!r} (dt={dt}, precision={cfg["precision"]})')
+                return res
+        else:
+            from scipy.integrate import solve_ivp
+            order = names
+            decl = net.y0()
+
+            def f(t, yv):
+                d = net.rhs(dict(zip(order, yv)))
+                return [d[n] for n in order]
+            if len(idx):
+                sol = solve_ivp(f, (0.0, float(max(idx[-1], 1e-12))), [decl[n] for n in order], method='DOP853',
+                                rtol=1e-12, atol=1e-14, t_eval=idx)
+                rtol, atol = kw.get('rtol', 1e-3), kw.get('atol', 1e-6)
+                for k, n in name_of.items():
+                    refv = sol.y[order.index(n)]
+                    bound = 200 * (atol + rtol * np.maximum(np.abs(refv), np.max(np.abs(sol.y)))) * max(1.0, steps ** 0.5)
+                    bad = np.nonzero(np.abs(col[k] - refv) > bound)[0]
+                    ratio = float(np.max(np.abs(col[k] - refv) / bound)) if len(refv) else 0.0
+                    res.setdefault('maxima', {})['jax_adaptive_err_over_bound'] = max(
+                        ratio, res.get('maxima', {}).get('jax_adaptive_err_over_bound', 0.0))
+                    if len(bad):
+                        b = bad[0]
+                        V('L-adaptive', 'silent', 'jax-' + cfg['solver'],
+                          f'{n} at t={idx[b]}: jax {cfg["solver"]} returned {col[k][b]!r}, reference solution {refv[b]!r}')
+                        return res
+        res['nontrivial'] = len(js) >= 2
         return res
 
     # ------------------------------------------------------------------------------------------------
